@@ -608,3 +608,19 @@ package dawn
 //@   retassert registered-under-the-requested-label: result.1 == nil ==> (has(proj.targets, lstr4(l.Kind, l.Project, l.Package, l.Name)) && target == proj.targets[lstr4(l.Kind, l.Project, l.Package, l.Name)])
 //@   modifies heap
 
+
+// ---------------------------------------------------------------- C12: target() uses the confined path
+// The path a target declares as generated is built from the path repoSourcePath validated and
+// cleaned (named `confined` here), not from the raw argument: the validated path is what is split
+// into components and joined under the project root, once per declared output.
+//@ ghost confined string threadlocal = ""
+//@ func dawn.repoSourcePath variant named
+//@   trusted
+//@   ensures confined == result.0
+//@   modifies confined
+//@ func (*dawn.Project).builtin_target
+//@   uses dawn.repoSourcePath variant named
+//@   requires proj != nil
+//@   callsite Split: assert splits-the-confined-path: $0 == confined
+//@   modifies heap, confined, smap, n_json, json_failed, n_save, saved_rerun, saved_data, saved_deps, ipos
+//@   loop over generates: step one-output-per-entry: when true ensures len(gens) == old(len(gens)) + 1
